@@ -1,0 +1,15 @@
+//go:build verif
+
+package keeper
+
+// Contracts for x/bridge/keeper, read by /verif/bin/govc. Comment-only: compiled
+// only with -tags verif and adds no code.
+
+// ---- privileged handlers (C19) ----
+
+//@ func (k msgServer).UpdateSnapshotLimit(goCtx, msg) (resp, err)
+//@ requires [msg_present] msg != nil
+//@ modifies bridge.SnapshotLimit
+//@ ensures [only_governance_authority] err == nil ==> msg.Authority == k.Keeper.authority
+//@ ensures [rejected_request_changes_nothing] msg.Authority != k.Keeper.authority ==> err != nil && nothing_written()
+//@ ensures [sets_limit] err == nil ==> bridge.SnapshotLimit.Limit == msg.Limit
